@@ -101,6 +101,11 @@ func exploreCaseShard(body func(fails *[]string, mu *sync.Mutex), opt sched.Opti
 		}
 		return res
 	}
+	if opt.SpawnFilter == nil {
+		// timer loops (the vector cache's monitor) block in a real select: they are
+		// left out of controlled executions and their work is driven explicitly
+		opt.SpawnFilter = func(src string) bool { return !strings.Contains(src, "monitor") }
+	}
 	wrapped := func() {
 		var fails []string
 		var mu sync.Mutex
@@ -108,6 +113,9 @@ func exploreCaseShard(body func(fails *[]string, mu *sync.Mutex), opt sched.Opti
 	}
 	st := sched.ExploreShard(wrapped, opt, shard, nshards, func(r sched.Result) bool {
 		res.points += r.Points
+		if os.Getenv("VERIF_PROFILE") == "2" && res.points == r.Points {
+			fmt.Fprintln(os.Stderr, strings.Join(r.Describe(), "\n"))
+		}
 		msg := ""
 		switch {
 		case r.Failure != "":
